@@ -1,7 +1,7 @@
 CONSTANTS
   Alphabet <- AlphaMixed
   MaxLen = 2
-  MaxMsgs = 2
+  MaxMsgs = 1
   MaxOps = 3
   MaxHandles = 1
   OutLens <- Out16_32
